@@ -104,20 +104,11 @@ theorem ext_getD (l1 l2 : List Nat) (hl : l1.length = l2.length) (h : ∀ a, l1.
   have := h a
   simpa [List.getD_eq_getElem?_getD, h1, h2] using this
 
-/-- SERIALIZABLE. For every supported block, every account universe and EVERY schedule of enabled
-    events:
-    (a) at every moment, what each transaction has observed so far (every value a read returned,
-        `none` for an undeclared account) is a prefix of what it observes in the sequential
-        execution of the block – i.e. a read returns the value left by all earlier transactions in
-        block order (and by the transaction's own earlier writes);
-    (b) once every transaction is committed, the world state equals the sequential final state
-        and every transaction's list of observations equals the sequential one. -/
-theorem serializable (txs : List Tx) (hs : Supported txs) (nacc : Nat) (sched : List Nat) (s : Sim)
-    (hrun : runSched txs (build txs) sched (simInit nacc txs) = some s) :
+/-- what the invariant of `Sim` says in terms of the sequential reference `runSeq` -/
+theorem inv_conclusions (txs : List Tx) (nacc : Nat) (s : Sim) (h : Inv txs (initBal nacc) s) :
     (∀ i, i < txs.length → (s.sts.getD i {}).loc.obs <+: (runSeq nacc txs).2.getD i []) ∧
     ((∀ i, i < txs.length → s.isCommitted i = true) →
       s.real = (runSeq nacc txs).1 ∧ s.sts.map (fun st => st.loc.obs) = (runSeq nacc txs).2) := by
-  have h := inv_runSched hs sched _ s (inv_init hs nacc) hrun
   rw [runSeq_eq]
   constructor
   · intro i hi
@@ -142,6 +133,21 @@ theorem serializable (txs : List Tx) (hs : Supported txs) (nacc : Nat) (sched : 
           simp [stOf, List.getD_eq_getElem?_getD, (by simpa using h1 : i < s.sts.length)]
         simp only [List.getElem_map, List.getElem_range]
         rw [← hst, h.loc i hi, h.commPc i hi (hall i hi)]
+
+/-- SERIALIZABLE. For every supported block, every account universe and EVERY schedule of enabled
+    events:
+    (a) at every moment, what each transaction has observed so far (every value a read returned,
+        `none` for an undeclared account) is a prefix of what it observes in the sequential
+        execution of the block – i.e. a read returns the value left by all earlier transactions in
+        block order (and by the transaction's own earlier writes);
+    (b) once every transaction is committed, the world state equals the sequential final state
+        and every transaction's list of observations equals the sequential one. -/
+theorem serializable (txs : List Tx) (hs : Supported txs) (nacc : Nat) (sched : List Nat) (s : Sim)
+    (hrun : runSched txs (build txs) sched (simInit nacc txs) = some s) :
+    (∀ i, i < txs.length → (s.sts.getD i {}).loc.obs <+: (runSeq nacc txs).2.getD i []) ∧
+    ((∀ i, i < txs.length → s.isCommitted i = true) →
+      s.real = (runSeq nacc txs).1 ∧ s.sts.map (fun st => st.loc.obs) = (runSeq nacc txs).2) := by
+  exact inv_conclusions txs nacc s (inv_runSched hs sched _ s (inv_init hs nacc) hrun)
 
 /-- The executable `simulate` that the correspondence run compares with the real code (token or
     priority schedules) is an instance: whatever it returns satisfies `serializable`. -/
@@ -190,35 +196,48 @@ theorem idle_world_writer_not_serializable :
 
 /-! ### executor retry (GetSnapshot at start, run, Reset, run again) – Model/C09Retry
 
-`RSim` adds to `Sim` the events `snap i` (GetSnapshot with its real semantics per lock kind) and
-`reset i` (Reset to that snapshot; the program starts again).  `RInv` (Proofs/C09Retry) is the
-invariant of `Sim` (which yields `serializable`) plus the facts about the snapshot data.
+`RSim` adds to `Sim` the events `snap i` (GetSnapshot with its real semantics per lock kind:
+account locks – never blocks, records the resolved write-locked entries; world write lock – enabled
+only when every predecessor is committed, then a copy of the real state) and `reset i` (Reset to
+that snapshot; world write lock – the real state becomes the copy; account locks – every
+write-locked entry goes back to its snapshot value or to `las.base`; the program starts again).
+`retry[i]` says which transactions follow the pattern; a retrying transaction must take its snapshot
+before its first step and may commit only after the Reset and the second run. -/
 
-FULL STATEMENT (`serializable_with_retry`), NOT yet proved in full: for every supported block, every
-set of retrying transactions and every schedule `evs` of enabled `Ev`s,
-`runEv true txs retry (build txs) evs (rInit nacc txs) = some r` implies `RInv … r`, hence (as in
-`serializable`) once all are committed the world state and all observations equal `runSeq`, a
-retrying transaction counting as its final run.
-What is proved (`serializable_with_retry_partial`): an enabled `snap` or `reset` event preserves
-`RInv` – in particular a Reset puts back exactly the sequential pre-state of the transaction on
-exactly its accounts, for both lock kinds – and an enabled `act` event preserves the `Sim`
-invariant.  Missing: that `act` preserves the bookkeeping part of `RInv` (`start` = las.base). -/
-theorem serializable_with_retry_partial (txs : List Tx) (hs : Supported txs) (retry : List Bool) (init : List Nat)
-    (r : RSim) (h : RInv txs retry init r) (e : Ev)
-    (hen : enabledEv true txs retry (build txs) r e = true) :
-    Inv txs init (fireEv txs (build txs) r e).sim ∧
-    ((∀ i, e ≠ .act i) → RInv txs retry init (fireEv txs (build txs) r e)) := by
-  cases e with
-  | snap i =>
-    have := rinv_snap hs h hen
-    exact ⟨this.inv, fun _ => this⟩
-  | reset i =>
-    have := rinv_reset hs h hen
-    exact ⟨this.inv, fun _ => this⟩
-  | act i =>
-    refine ⟨?_, fun hne => absurd rfl (hne i)⟩
-    simp only [enabledEv, Bool.and_eq_true, decide_eq_true_eq] at hen
-    exact inv_fire hs h.inv hen.1.1 hen.1.2
+/-- The retry invariant (`RInv`: the invariant of `Sim` + the facts about the snapshot data) holds
+    in every state reached by ANY schedule of enabled events (snapshots, steps, Commits, Resets in
+    any admissible interleaving). -/
+theorem retry_invariant_reachable (txs : List Tx) (hs : Supported txs) (retry : List Bool) (nacc : Nat)
+    (evs : List Ev) (r : RSim)
+    (hrun : runEv true txs retry (build txs) evs (rInit nacc txs) = some r) :
+    RInv txs retry (initBal nacc) r :=
+  rinv_run hs evs _ r (rinv_init hs retry nacc) hrun
+
+/-- SERIALIZABLE WITH RETRY. For every supported block, every choice of retrying transactions,
+    every account universe and EVERY schedule of enabled events of the retry system:
+    (a) at every moment the observations of the current run of each transaction are a prefix of its
+        sequential observations;
+    (b) once every transaction is committed, the world state equals the sequential final state and
+        every transaction's observations equal the sequential ones – a retrying transaction counts
+        as its final run (`runSeq` knows nothing about retries). -/
+theorem serializable_with_retry (txs : List Tx) (hs : Supported txs) (retry : List Bool) (nacc : Nat)
+    (evs : List Ev) (r : RSim)
+    (hrun : runEv true txs retry (build txs) evs (rInit nacc txs) = some r) :
+    (∀ i, i < txs.length → (r.sim.sts.getD i {}).loc.obs <+: (runSeq nacc txs).2.getD i []) ∧
+    ((∀ i, i < txs.length → r.sim.isCommitted i = true) →
+      r.sim.real = (runSeq nacc txs).1 ∧ r.sim.sts.map (fun st => st.loc.obs) = (runSeq nacc txs).2) :=
+  inv_conclusions txs nacc r.sim (retry_invariant_reachable txs hs retry nacc evs r hrun).inv
+
+/-- non-vacuity: a supported block with a retrying world write locker and a retrying account locker,
+    and a complete schedule of enabled events for it -/
+example :
+    let txs : List Tx := [⟨[⟨some 0, .write⟩, ⟨some 1, .read⟩], [.r 1, .r 0, .w 0]⟩, ⟨[⟨none, .write⟩], [.r 0, .w 0, .w 1]⟩]
+    Supported txs ∧
+    (runEv true txs [true, true] (build txs)
+      [.snap 0, .act 0, .act 0, .act 0, .reset 0, .act 0, .act 0, .act 0, .act 0,
+       .snap 1, .act 1, .act 1, .act 1, .reset 1, .act 1, .act 1, .act 1, .act 1] (rInit 2 txs)).map
+        (fun r => (r.sim.real, r.sim.sts.map (fun st => st.committed))) = some ((runSeq 2 txs).1, [true, true]) :=
+  ⟨⟨by decide, by decide, by decide⟩, by decide⟩
 
 /-- WITNESS for the guard the proof relies on (seeded change C09-5): if the snapshot of the real
     state is taken BEFORE waiting for the predecessors (`guarded = false`), the block
